@@ -23,6 +23,8 @@ RT_TOO_LARGE = {("c01", "VecDeepS", 1), ("c02", "VecDeepS", 1), ("c02", "DeepSSt
                 ("c03", "VecString", 2), ("c03", "VecString", 3), ("c03", "VecString", 4), ("c03", "VecString", 5)}
 # full-copy / eps round trips of Vec<String> and Box<[String]> with two strings (shapes 2..5): > 24 GB in the first full thorough run of C01
 RT_TOO_LARGE |= {(f, c, sh) for f in ("c01", "c02") for c in ("VecString", "BoxString") for sh in (2, 3, 4, 5)}
+# killed in the first full thorough run of C02 (possibly only under the memory pressure of the instances above; not re-measured)
+RT_TOO_LARGE |= {("c02", "BoundString", 0), ("c02", "BoundString", 2), ("c02", "ArrStringx0", 0)}
 
 
 def fam_harnesses(fam, tier, what, rows=None, only_borrows=False, covers="all"):
